@@ -8,10 +8,10 @@ TEXT = ("reach_exact (reachability in the dependency graph is computed exactly: 
         "edges_exact are Lean theorems over all finite graphs / compiled configurations. gonum's enumeration is not modelled: CyclesSpec (every reported line is a closed "
         "walk of the model graph; lines cover every node on a cycle; empty iff acyclic) is checked on every case of the run. Exhaustive small configurations over the "
         "edge kinds {@service, !tagged, decorator-on-tag, %param%} plus random sparse graphs; the implementation's verdict is also judged by an independent "
-        "cycle finder over the documented dependency relation; accepted containers are asked for CircularDeps() and every parameter in the probe. graph_faithful: for all compiled configurations and resources a, b: a path a -> b exists in the built graph (with its auxiliary tag/decorate/decorator nodes) iff a transitively depends on b in the documented relation; cyclic_documented: rejected for cycles iff some service or parameter transitively depends on itself; reach_always_answers: |V| expansion rounds always close, so no theorem carries a totality hypothesis. param_eval_terminates_partial: under a rank that decreases along parameter references, the result and state of getParam are the same for every recursion budget from 2*rank+3 on (that an acyclic compiled graph yields such a rank is not proved in Lean).")
+        "cycle finder over the documented dependency relation; accepted containers are asked for CircularDeps() and every parameter in the probe. graph_faithful: for all compiled configurations and resources a, b: a path a -> b exists in the built graph (with its auxiliary tag/decorate/decorator nodes) iff a transitively depends on b in the documented relation; cyclic_documented: rejected for cycles iff some service or parameter transitively depends on itself; reach_always_answers: |V| expansion rounds always close, so no theorem carries a totality hypothesis. param_eval_terminates: for parameters compiled by compileParams and an acyclic compiled graph the result and state of getParam are the same for every recursion budget from 2*|V|+3 on (rank from acyclicity: rank_lt_of_path, ranked_of_acyclic; references recorded: compiled_params_recorded); param_eval_terminates_partial is the rank-hypothesis form it is derived from. Dead decorators (tag *, a tag nobody carries, a tag equal to a service name) are enumerated exhaustively over small configurations.")
 TECHNIQUE = "Lean 4 theorems on graph reachability (induction + closure certificate) + exhaustive small-graph and random correspondence, CyclesSpec checked per case, independent Python cycle oracle"
 LEAN_PROPS = ["C07"]
-TRUSTED = ["gonum topo.DirectedCyclesIn (external): assumed to satisfy CyclesSpec, checked per case", "graph_faithful (model graph = documented relation) is checked against the Python oracle, proof pending"]
+TRUSTED = ["gonum topo.DirectedCyclesIn (external): assumed to satisfy CyclesSpec, checked per case", "the documented dependency relation itself (ConfigDep) is a definition: graph_faithful proves the built graph equal to it, the Python oracle written from the documentation judges the implementation against it per case"]
 ASSUMPTIONS = ["moderate number of cycles (dense graphs blow up gonum's enumeration; generators cap sizes)"]
 
 
